@@ -36,6 +36,8 @@ def _frame(data, cols, index, cat_cols, dtype):
                 for i, v in enumerate(vals):
                     arr[i] = np.nan if v == "__nan__" else v
                 d[c] = pandas.Series(arr, index=index, dtype=object)
+        elif all(isinstance(v, int) for v in vals):
+            d[c] = pandas.Series(np.array(vals, dtype=np.int64), index=index)       # integer pass-through column (64-bit ids, timestamps in ns)
         else:
             d[c] = pandas.Series(np.array(vals, dtype=np.float64), index=index)
     return pandas.DataFrame(d, columns=cols, index=index)
@@ -106,6 +108,10 @@ def _check_transform(tr, case, data, index, fit_cols, cats, facts, expect_unseen
             if c in case["cat_cols"]:
                 require(list(out[c].astype(object).where(out[c].notna(), None)) == list(df0[c].astype(object).where(df0[c].notna(), None)),
                         "passthrough:changed", "column %r" % c, facts)
+            elif df0[c].dtype.kind in "iu":
+                # integers are compared as integers (a detour through float64 rounds anything beyond 2**53)
+                require(out[c].dtype.kind in "iu" and np.array_equal(out[c].values.astype(np.int64), df0[c].values.astype(np.int64)), "passthrough:changed",
+                        "integer column %r: %r -> %r (dtype %s)" % (c, df0[c].values[:3].tolist(), out[c].values[:3].tolist(), out[c].dtype), facts)
             else:
                 require(_same(out[c].values, df0[c].values), "passthrough:changed", "column %r" % c, facts)
         for (c, v), name in ind_cols.items():
@@ -235,8 +241,15 @@ def _cases(draw, tier="quick"):
         tcell = st.one_of(st.sampled_from(sub), st.sampled_from(sub), st.sampled_from(ALPHA), missing, st.sampled_from(UNSEEN))
         test[c] = draw(st.lists(tcell, min_size=nte, max_size=nte))
     for c in num_cols:
-        train[c] = draw(st.lists(st.integers(-40, 40).map(lambda k: k / 4.0), min_size=ntr, max_size=ntr))
-        test[c] = draw(st.lists(st.integers(-40, 40).map(lambda k: k / 4.0), min_size=nte, max_size=nte))
+        nk = draw(st.sampled_from(["float", "float", "int", "bigint"]))
+        if nk == "float":
+            cellv = st.integers(-40, 40).map(lambda k: k / 4.0)
+        elif nk == "int":
+            cellv = st.integers(-1000, 1000)
+        else:
+            cellv = st.integers(0, 4000).map(lambda k: 2**53 + 1 + 2 * k)          # not representable as float64
+        train[c] = draw(st.lists(cellv, min_size=ntr, max_size=ntr))
+        test[c] = draw(st.lists(cellv, min_size=nte, max_size=nte))
     # plant unseen values at chosen positions (first / last cell included)
     plant = draw(st.sampled_from(["none", "first", "last", "both", "row"]))
     if plant in ("first", "both"):
